@@ -8,19 +8,22 @@ import vf
 LEVEL = "proof"
 CLAIM = dict(cat="proof", design="§3 C11",
    text="Coq theorems over the real-number instance of a literal model (coq/Cxx/C11_Defs.v) of ExactRiemannSolver: constants, pressure function f and f', guess_P, "
-        "the Newton loop, solve_brent, the shock/rarefaction samplers and solve(), for ALL densities/pressures > 0, all velocities, every adiabatic index > 1 and every sampling speed: "
+        "the Newton loop, solve_brent, the shock/rarefaction/vacuum samplers and solve(), for ALL densities/pressures > 0, all velocities, every adiabatic index > 1 and every sampling speed: "
         "behind a shock the sampled state satisfies mass, momentum AND energy Rankine-Hugoniot conditions across the shock speed the code computes (given u* = u_K -/+ f_K(P*)), "
         "shocks are supersonic and compressive; across a rarefaction the sampled state at every speed keeps the entropy P/rho^g and the Riemann invariant u +/- 2a/(g-1), "
         "x/t = u -/+ a inside the fan, head/tail one-sided expressions coincide (no jump except at shocks and the contact); vacuum samplers are the same fan expressions, start at the "
         "undisturbed state, end with base 0 and gas speed = front speed, and the rarefaction tail tends to the vacuum front as P* -> 0; f' > 0, f strictly increasing, root unique; "
-        "Brent's loop (arbitrary f) keeps f(a)f(b) <= 0, stays in the initial bracket and exits with f(b)=0 or |a-b| <= 5e-9(a+b) unless the 1e4 bound is hit, hence a root of a continuous f within that distance; "
-        "u* is off each one-sided value by half the residual. Tie: the binary64 instance of the SAME definitions is compared bit for bit with the compiled solve() (flag, rho, u, P at sampling speeds "
-        "within 1 ulp / 1e-9 / 1e-5 of every wave speed) and with the private helpers guess_P, f, fprime, solve_brent on every run; an independent 40-digit reference solver checks the real outputs.",
+        "Brent's loop (arbitrary f, arbitrary pow) keeps f(a)f(b) <= 0, stays in the initial bracket and exits with f(b)=0 or |a-b| <= 5e-9(a+b) unless the 1e4 bound is hit, hence a root of a continuous f within that distance; "
+        "u* is off each one-sided value by half the residual; solve() dispatches to these samplers. Tie: the binary64 instance of the SAME definitions is compared bit for bit with the compiled solve() (flag, rho, u, P at sampling speeds "
+        "within 1 ulp / 1e-9 / 1e-5 of every wave speed) and with the private helpers guess_P, f, fprime, solve_brent on every run; an independent 40-digit reference solver checks the real outputs. "
+        "FINDING exhibited by the oracle: sampled exactly at (or one ulp inside) a vacuum front the solver returned NaN density/pressure (fan base rounds negative, std::pow(neg, non-integer)); "
+        "fix = std::max(0., base) at the six fan sites (hooks/c11_exact_vacuum_front_nan.patch); the model carries both variants (clamp) and all theorems hold for both.",
    note="Trusted: Coq kernel + standard real-number axioms (as reported); extraction with ExtrOCamlFloats and glibc pow on both sides for the correspondence. "
         "PARTIAL: accuracy of P* is proved only for the Brent path (C11_star_state_accuracy_partial); when the Newton loop stops on its step test the residual bound needs concavity of f (not proved) - "
-        "covered by the reference-solver oracle only. Continuity is stated as coincidence of the one-sided expressions at fan head/tail, not as an epsilon-delta statement. "
-        "The Newton loop has no iteration bound in the source: the model reports out-of-fuel (never observed). Known oddity (not a violation): when the two-rarefaction guess is exact up to round-off with f(guess) > 0, "
-        "Brent runs ~29 iterations from the bracket [0, guess].",
+        "covered by the reference-solver oracle only (observed max deviation 3e-10 relative). Continuity is stated as coincidence of the one-sided expressions at fan head/tail, not as an epsilon-delta statement. "
+        "Real instance uses Rpower (Rpower 0 y = 1): statements at a vanishing base are about the base; the loop-logic theorems hold for any pow, and the pressure function with the C value pow(0,y)=0 is characterised at P=0 (C11_pressure_function_at_zero). "
+        "The Newton loop has no iteration bound in the source: the model reports out-of-fuel (never observed). Oddities (not violations): when the root underflows (velocity difference within ~1e-6 of the vacuum limit, or gamma near 1) "
+        "Brent runs into its 1e4 iteration bound (about 1% of generated states, ~2e4 pow calls); when the two-rarefaction guess is exact up to round-off with f(guess) > 0, Brent runs ~29 iterations from the bracket [0, guess].",
    technique="Coq proof over reals of a literal solver model + bit-exact binary64 correspondence + decimal reference solver")
 
 GFLOOR = 1.00000001
@@ -65,6 +68,9 @@ def corpus_states():
         a = math.sqrt(g)
         dv = f * 2.0 / (g - 1.0) * (a + a)
         out.append(dict(tag="vaclimit", gamma=g, L=(1.0, -0.5 * dv, 1.0), R=(1.0, 0.5 * dv, 1.0)))
+    # witness of the NaN at the vacuum front (sampling speed = uR - 2aR/(g-1)): rho = P = NaN before the fan bases were guarded
+    out.append(dict(tag="vaclimit", gamma=1.2, L=(0.6016483701552287, -0.623607716562567, 0.03380363602518363),
+                    R=(77.5084690450635, 2.127718092142287, 0.010501529313424778)))
     # vacuum input (correspondence of the vacuum branch only)
     out.append(dict(tag="vacR", gamma=1.4, L=(1.0, 0.2, 1.0), R=(0.0, 0.0, 0.0)))
     out.append(dict(tag="vacL", gamma=1.4, L=(0.0, 0.0, 0.0), R=(1.0, -0.2, 1.0)))
@@ -422,7 +428,7 @@ def run(ck):
     wlines = ["W " + state_words(c) for c in states]
     wout = None
     if okm:
-        rc, wout = vf.run_lines([os.path.join(d, "model")], "\n".join(wlines) + "\n", timeout=900)
+        rc, wout = vf.run_lines([os.path.join(d, "model"), "1"], "\n".join(wlines) + "\n", timeout=900)     # star state and wave speeds do not depend on the variant
         if len(wout) != len(wlines):
             ck.breaks.append("model driver produced %d lines for %d states" % (len(wout), len(wlines)))
             wout = None
@@ -478,31 +484,52 @@ def run(ck):
         ck.breaks.append("implementation harness failed (rc=%d, %d of %d lines)" % (rc, len(out_i), len(lines)))
         ck.resolve_breaks_without_input()
         return
-    mism = 0
     sig = set()
     nprobe = nbrentprobe = 0
+    variant = None
+    mism = 0
+
+    def compare(out_m):
+        """number of lines on which the model output differs from the implementation, and the first few"""
+        nonlocal nprobe, nbrentprobe
+        bad, first = 0, []
+        nprobe = nbrentprobe = 0
+        for l, oi, om, (si, x) in zip(lines, out_i, out_m, owner):
+            if l[0] == "S":
+                fi = [nan_canon(t) if k else t for k, t in enumerate(oi.split())]
+                fm = [nan_canon(t) if k else t for k, t in enumerate(om.split("#")[0].split())]
+            else:
+                nprobe += 1
+                a, b = oi.split("|")
+                fi = [nan_canon(t) for t in a.split()] + [t if t == "ERR" else nan_canon(t) for t in b.split()[:1]]
+                a, b = om.split("|")
+                fm = [nan_canon(t) for t in a.split()] + [t if t == "ERR" else nan_canon(t) for t in b.split()[:1]]
+                if b.split()[0] != "ERR":
+                    nbrentprobe += 1
+            if fi != fm:
+                bad += 1
+                if len(first) < 5:
+                    first.append("correspondence C11 model <-> ExactRiemannSolver (%s): input %s\n impl =%s\n model=%s" %
+                                 ("solve" if l[0] == "S" else "guess_P/f/fprime/solve_brent", l, oi, om))
+        return bad, first
+
     if okm:
-        rc_m, out_m = vf.run_lines([os.path.join(d, "model")], text, timeout=1800)
-        if len(out_m) != len(lines):
-            ck.breaks.append("model driver produced %d lines for %d cases" % (len(out_m), len(lines)))
-        else:
-            for l, oi, om, (si, x) in zip(lines, out_i, out_m, owner):
-                if l[0] == "S":
-                    fi = [nan_canon(t) if k else t for k, t in enumerate(oi.split())]
-                    fm = [nan_canon(t) if k else t for k, t in enumerate(om.split("#")[0].split())]
-                else:
-                    nprobe += 1
-                    a, b = oi.split("|")
-                    fi = [nan_canon(t) for t in a.split()] + [t if t == "ERR" else nan_canon(t) for t in b.split()[:1]]
-                    a, b = om.split("|")
-                    fm = [nan_canon(t) for t in a.split()] + [t if t == "ERR" else nan_canon(t) for t in b.split()[:1]]
-                    if b.split()[0] != "ERR":
-                        nbrentprobe += 1
-                if fi != fm:
-                    mism += 1
-                    if mism <= 5:
-                        ck.breaks.append("correspondence C11 model <-> ExactRiemannSolver (%s): input %s\n impl =%s\n model=%s" %
-                                         ("solve" if l[0] == "S" else "guess_P/f/fprime/solve_brent", l, oi, om))
+        # the model has two variants of the six fan expressions (clamp = std::max(0., base) or not); the theorems hold for
+        # both; the code must be one of them bit for bit
+        res = {}
+        for v in ("1", "0"):
+            rc_m, out_m = vf.run_lines([os.path.join(d, "model"), v], text, timeout=1800)
+            if len(out_m) != len(lines):
+                res[v] = (len(lines), ["model driver (variant %s) produced %d lines for %d cases" % (v, len(out_m), len(lines))])
+            else:
+                res[v] = compare(out_m)
+            if res[v][0] == 0:
+                variant = v
+                break
+        if variant is None:
+            v = min(res, key=lambda k: res[k][0])
+            mism = res[v][0]
+            ck.breaks += ["[closest model variant: clamp=%s, %d of %d lines differ] " % (v, mism, len(lines)) + b for b in res[v][1]]
     # property oracle on the implementation's outputs
     per_state = {}
     for l, oi, (si, x) in zip(lines, out_i, owner):
@@ -512,11 +539,10 @@ def run(ck):
     bad = 0
     nor = 0
     worst = 0.0
+    fail_hist = {}
     full_oracle = bool(ck.breaks) or not ck.quick
     for si, c in enumerate(states):
         if c["tag"] in ("vacL", "vacR"):
-            continue
-        if not full_oracle and si >= ncorpus and si % 2 == 1:
             continue
         smp = per_state.get(si, [])
         ref = ref_star(c)
@@ -532,13 +558,22 @@ def run(ck):
                 if ref_sample(c, ref, x)[1] in ("Lstar", "Rstar") and all(abs(x - w) > 1e-6 * max(abs(w), 1e-3 * sum(scale_of(c))) for w in jm):
                     worst = max(worst, abs(p - ref["ps"]) / ref["ps"])
                     break
+        vk = viol_key(c, why) if why else None
+        if why and ref is not None and ref["ps"] < 1e-300:
+            # the exact star pressure is below the binary64 range while (P*/P_K)^((g-1)/2g) is not small (gamma close to 1):
+            # the solver gets P* = 0, pow(0, .) = 0, and with it a contact speed and fan tails that are off by x * 2a/(g-1)
+            vk["clause_id"] = "pstar_underflow"
+            why = ("[exact P* underflows binary64: (P*/P_L)^((g-1)/2g) = %.3g, (P*/P_R)^((g-1)/2g) = %.3g, exact contact speed %r] "
+                   % (ref["xL"], ref["xR"], ref["us"])) + why
         if why:
             bad += 1
+            kk = vk["clause_id"] + "/" + c["_w"][0]
+            fail_hist[kk] = fail_hist.get(kk, 0) + 1
             if bad <= 4:
                 cc = {k: v for k, v in c.items() if not k.startswith("_")}
                 ck.violation("C11 fails on the real ExactRiemannSolver::solve: " + why,
                              {"case": cc, "input_lines": [l for l, (s2, x) in zip(lines, owner) if s2 == si and l[0] == "S"]},
-                             key=viol_key(c, why))
+                             key=vk)
     ck.notes.append("property oracle (40-digit reference solver) evaluated on %d states of the real solver's outputs, %d fail; largest relative deviation of the returned star pressure from the reference (well-conditioned states): %.3g"
                     % (nor, bad, worst))
     cov = ck.coverage
@@ -560,14 +595,17 @@ def run(ck):
     cov["helper_probe_lines"] = nprobe
     cov["solve_brent_probe_runs"] = nbrentprobe
     cov["case_mismatches"] = mism
+    cov["code_matches_model_variant"] = {"1": "clamp=true: fan bases guarded by std::max(0., .)", "0": "clamp=false: unguarded fan bases (NaN at the vacuum front)", None: "none"}[variant]
     cov["oracle_states"] = nor
     cov["oracle_failures"] = bad
+    cov["oracle_failure_histogram"] = fail_hist
     cov["max_rel_dev_pstar_vs_reference"] = worst
     cov["samples"] = [{"input": lines[k], "impl": out_i[k]} for k in (0, 1, 2) if k < len(lines)]
     ck.assumptions += [
         "theorems are about the real-number instance (ROps 0 1, Rpower for std::pow) of the definitions in coq/Cxx/C11_Defs.v; the binary64 instance of the SAME definitions is what is compared bit for bit with the compiled solver",
         "std::pow enters as a parameter: glibc pow on both sides (OCaml Float.pow and g++ -fno-builtin -ffp-contract=off)",
-        "vacuum handling inside solve() is the model of coq/Cxx/C05_Defs.v (exact_solve_novac), reused unchanged",
+        "vacuum handling inside solve(): own definitions written with the fan expressions; for clamp=false proved equal to the model of coq/Cxx/C05_Defs.v (exact_solve_novac) for every scalar instance (C11_vacuum_model_is_c05)",
+        "the model has a boolean variant clamp (fan bases guarded by std::max(0., .) or not); all theorems hold for both; the compiled solver must equal one variant bit for bit (coverage.code_matches_model_variant)",
         "accuracy of the star pressure is proved for the Brent path only (C11_star_state_accuracy_partial); the Newton step-test exit is covered by the reference-solver oracle (tolerance 1e-7 relative + round-off allowance)",
         "the C++ Newton loop has no iteration bound; the model gives it 1e5 iterations of fuel and reports exhaustion as code 98 (never observed)",
     ]
